@@ -32,7 +32,7 @@ type ReplayFile struct {
 func writeEvidenceFailure(prop, tier string, seed int64, why string, d time.Duration) {
 	ev := map[string]interface{}{
 		"property_id": prop, "tier": tier, "seed": seed, "level": "model_checking", "wall_s": d.Seconds(), "violations": 0,
-		"coverage": map[string]interface{}{"evaluations": 0, "distinct_nontrivial": 0, "explanation": "check could not run: " + why},
+		"coverage":    map[string]interface{}{"evaluations": 0, "distinct_nontrivial": 0, "explanation": "check could not run: " + why},
 		"assumptions": []string{},
 	}
 	b, _ := json.MarshalIndent(ev, "", " ")
